@@ -45,6 +45,7 @@ class OperatorCheck(Check):
     }
     sem_all_bases = {"quick": 0, "thorough": 10}
     use_b1 = True
+    use_a4 = {"quick": False, "thorough": True}
     b1_full_q2 = True     # quick: B1 x all 264 syntactic queries (False: x the 89 semantic-class queries)
     use_b2 = True
     maxn = 99
@@ -68,7 +69,7 @@ class OperatorCheck(Check):
             qspec = ("list", q2 if (scope == "B1" and (self.b1_full_q2 or tier != "quick")) else qs2)
             out.append(opsem.make_task(scopes.SIG2, conds, self.weakly, self.cfgs, qspec, via=via, wsig=WSIG2, cls=cls,
                                        scope=scope, keys=alt_keys(n, len(conds)) if via == "api" else None,
-                                       labels=(via == "api" and n % 3 == 1)))
+                                       labels=(via == "api" and n % 3 == 1), debug_log=(n % 7 == 3)))
         # bases containing the SAME conditional twice (same formulas, same text, different keys): [c1, c1, c2] for every
         # structure representative [c1, c2] of the literal pairs
         reps2, _st = scopes.structural_scope(scopes.L3, scopes.SIG3, 2, ("strong", "weak-finite", "weak-nofinite"), seed, 1, minsize=2)
@@ -97,13 +98,24 @@ class OperatorCheck(Check):
                     out.append(opsem.make_task(scopes.SIG3, conds, self.weakly, self.cfgs, ("type", tq[0], tq[1], True),
                                                via=via, cls=cls, scope="B3(%d)-%s" % (size, alpha_name), qslice=(ch, nch),
                                                keys=alt_keys(i, len(conds)) if via == "api" else None,
-                                               labels=(via == "api" and i % 3 == 2)))
+                                               labels=(via == "api" and i % 3 == 2), debug_log=(i % 7 == 5)))
                 if alpha_name == "L3" and i % max(1, len(reps) // max(1, self.sem_all_bases[tier])) == 0 \
                         and self.sem_all_bases[tier] and len(conds) >= 3:
                     for r_ in range(30):
                         out.append(opsem.make_task(scopes.SIG3, conds, self.weakly, self.cfgs,
                                                    ("sem-all", "cnf" if r_ % 2 else "dnf"), via="api", cls=cls,
                                                    scope="B3-semall", qslice=(r_, 30)))
+        # four atoms: structure representatives of the <=4-subsets of a 12-element chain/bridge alphabet x literal queries
+        if self.use_a4[tier]:
+            reps4, st4 = scopes.structural_scope(scopes.A4, scopes.SIG4, min(4, self.maxn[tier] if isinstance(self.maxn, dict) else self.maxn),
+                                                 self.want, seed, 1)
+            self.stats["A4(4 atoms)"] = st4
+            q4 = [list(q) for q in scopes.literal_queries4()]
+            for i, (conds, cls) in enumerate(reps4):
+                nch = 2
+                for ch in range(nch):
+                    out.append(opsem.make_task(scopes.SIG4, conds, self.weakly, self.cfgs, ("list", q4), via="parse" if i % 4 == 0 else "api",
+                                               cls=cls, scope="A4", qslice=(ch, nch)))
         return out
 
     def run(self, task):
